@@ -255,8 +255,9 @@ def run(ctx, config='rel-all'):
         check('split_off', 'self.set_len(at)', len(selfsl) == 1 and selfsl[0].args[1] == at)
         check('split_off', 'other.set_len(len - at)', len(othsl) == 1 and m.eq(othsl[0].args[1], app('sub', LEN, at), othsl[0].state.facts))
         check('split_off', 'memcpy BASE + at -> other, len - at elements', len(cp) == 1 and cp[0].callee == 'copy_nonoverlapping' and m.eq(cp[0].args[0], slot(at), cp[0].state.facts) and m.eq(cp[0].args[2], app('sub', LEN, at), cp[0].state.facts))
-    # ---- append_elements
-    m = need('append_elements')
+    # ---- append_elements (a private helper of append; when it was inlined its clauses are evaluated on append itself, below)
+    has_append_elements = vec_method(db, 'append_elements') is not None
+    m = need('append_elements') if has_append_elements else None
     if m:
         cnt = app('len', ('param', 2))
         rs = m.events('call', '::reserve')
@@ -379,6 +380,17 @@ def run(ctx, config='rel-all'):
             rec = L[0]
             rng = [v for v in rec['init'].values() if 'Range' in repr(v)]
             okr = any(any(t[0] == 'agg' and t[1].endswith('Range') and field_of(t, 'start') == C(1) and field_of(t, 'end') == nn for t in subterms(v) if isinstance(t, tuple) and t) for v in rng)
+            # the same count as a down-counter: `let mut k = n; while k > 1 { ..; k -= 1 }`
+            K = None
+            for l, symv in rec['sym'].items():
+                if rec['init'].get(l) == nn and rec['step'] and all(sv['env'].get(l) is not None and slin(app('sub', symv, subst_wsub(sv['env'][l]))) == slin(C(1)) for sv in rec['step']):
+                    K = symv
+            if not okr and K is not None:
+                g_ = m.I.cfg(m.body)
+                blocks_ = g_.loops().get([h for (bid, h) in m.r.loops if bid == m.body['id']][0], set())
+                stay = [e for e in m.own if e.kind == 'branch' and e.block in blocks_ and e.extra.get('target') in blocks_ and ('lt', C(1), K) in e.extra['added']]
+                leave = [e for e in m.own if e.kind == 'branch' and e.block in blocks_ and e.extra.get('target') not in blocks_]
+                okr = len(stay) == 1 and bool(leave) and all(('le', K, C(1)) in e.extra['added'] for e in leave)
             check('extend_with', 'n - 1 clones (loop over 1..n), then the original value', okr)
             cur = [(l, v) for l, v in rec['init'].items() if m.eq(v, slot(LEN))]
             check('extend_with', 'the cursor starts at BASE + len (after the reserve)', len(cur) == 1)
@@ -393,7 +405,7 @@ def run(ctx, config='rel-all'):
             evs = m.r.events
             okw = len(w) == 2 and len(inc) == 2 and all(a[1] == C(1) for a in [i.args for i in inc]) and evs.index(w[0]) < evs.index(inc[0]) < evs.index(w[1]) < evs.index(inc[1])
             check('extend_with', 'the length is raised by one only AFTER each slot was written', okw)
-            check('extend_with', 'the last write (the moved original) happens only for n > 0', len(w) == 2 and any(f in (('lt', C(0), nn), ('ne', C(0), nn), ('ne', nn, C(0))) for f in w[1].state.facts))
+            check('extend_with', 'the last write (the moved original) happens only for n > 0', len(w) == 2 and any(f in (('lt', C(0), nn), ('ne', C(0), nn), ('ne', nn, C(0))) or (K is not None and f in (('eq', K, C(1)), ('eq', C(1), K))) for f in w[1].state.facts))
         else:
             check('extend_with', 'one clone loop', False)
     # ---- resize / clear / append / extend_from_slice_copy: thin compositions
@@ -410,7 +422,21 @@ def run(ctx, config='rel-all'):
         tr = m.events('call', '::truncate')
         check('clear', 'truncate(0)', len(tr) == 1 and tr[0].args[0] == SELF and tr[0].args[1] == C(0))
     m = need('append')
-    if m:
+    if m and not has_append_elements:
+        oth = ('param', 2)
+        cnt = ('load', ('fld', ('deref', oth), 'collections::vec::Vec.len'), 0)
+        rs = m.events('call', '::reserve')
+        cp = m.events('copy')
+        st = [e for e in m.own if e.kind == 'store' and e.lv == ('fld', ('deref', SELF), 'collections::vec::Vec.len')]
+        sl = m.events('call', '::set_len')
+        check('append', 'reserve(other.len())', len(rs) == 1 and rs[0].args[0] == SELF and rs[0].args[1] == cnt)
+        srcok = len(cp) == 1 and cp[0].args[0][0] == 'load' and 'RawVec.ptr' in repr(cp[0].args[0]) and repr(oth) in repr(cp[0].args[0])
+        check('append', 'memcpy other.buf -> BASE + len, other.len() elements', srcok and cp[0].callee == 'copy_nonoverlapping' and m.eq(cp[0].args[1], slot(LEN), cp[0].state.facts) and cp[0].args[2] == cnt)
+        check('append', 'len := len + other.len()', len(st) == 1 and m.eq(st[0].val, app('add', LEN, cnt), st[0].state.facts))
+        ev = m.r.events
+        check('append', 'order: reserve, copy, len', bool(rs and cp and st) and ev.index(rs[0]) < ev.index(cp[0]) < ev.index(st[0]))
+        check('append', 'other.set_len(0) after the copy (the elements moved)', len(sl) == 1 and sl[0].args[0] == oth and sl[0].args[1] == C(0) and bool(cp) and ev.index(cp[0]) < ev.index(sl[0]))
+    elif m:
         ae = m.events('call', '::append_elements')
         sl = m.events('call', '::set_len')
         oth = ('param', 2)
@@ -493,22 +519,34 @@ def run(ctx, config='rel-all'):
             ones = [l for l, v in rec['init'].items() if v == C(1)]
             rd = [l for l in ones if all(st['env'].get(l) == app('add', rec['sym'][l], C(1)) for st in rec['step'])]
             wr = [l for l in ones if l not in rd]
-            check('partition_dedup_by', 'read and write cursors both start at 1; the read cursor advances on every iteration', len(rd) == 1 and len(wr) == 1)
+            R_ = W_ = None
+            range_form = False
             if len(rd) == 1 and len(wr) == 1:
                 R_, W_ = rec['sym'][rd[0]], rec['sym'][wr[0]]
+            elif len(ones) == 1:
+                # `for r in 1..len`: the read cursor is the item of a Range { start: 1, end: len } iterator
+                rng = [v for v in rec['init'].values() if any(isinstance(t, tuple) and t and t[0] == 'agg' and t[1].endswith('Range') and field_of(t, 'start') == C(1) and field_of(t, 'end') == app('len', S) for t in subterms(v))]
+                nxr = [e for e in ev if e.kind == 'call' and 'Range<' in (e.callee or '') and (e.callee or '').endswith('::next')]
+                if len(rng) == 1 and len(nxr) == 1:
+                    R_, W_ = ('app', 'vproj', nxr[0].ret, 'Some', '0'), rec['sym'][ones[0]]
+                    wr = ones
+                    range_form = True
+            check('partition_dedup_by', 'read and write cursors both start at 1; the read cursor advances on every iteration', R_ is not None)
+            if R_ is not None:
                 uc = [e for e in ev if e.kind == 'call' and (e.extra.get('trait_path') or '').endswith('FnMut::call_mut')]
                 el = lambda i: app('add', S, app('mul', i, SZ))
                 okp = len(uc) == 1 and uc[0].args[1][0] == 'agg' and [lin(v) for _, v in uc[0].args[1][3]] == [lin(el(R_)), lin(el(('app', 'wsub', W_, C(1))))]
                 check('partition_dedup_by', 'same_bucket(&mut s[r], &mut s[w - 1])', okp)
                 ws = [st['env'].get(wr[0]) for st in rec['step']]
-                okw = len(ws) == 1 and ws[0] is not None and ws[0][0] == 'phi' and {x for _, x in ws[0][2]} == {W_, app('add', W_, C(1))}
+                okw = (len(ws) == 1 and ws[0] is not None and ws[0][0] == 'phi' and {x for _, x in ws[0][2]} == {W_, app('add', W_, C(1))}) or \
+                    (len(ws) == 2 and set(ws) == {W_, app('add', W_, C(1))})     # `continue` for a duplicate: two back edges
                 check('partition_dedup_by', 'the write cursor advances by one exactly for elements that are kept', okw)
-                sw = [e for e in ev if e.kind == 'call' and (e.callee or '').endswith('mem::swap')]
+                sw = [e for e in ev if e.kind == 'call' and ((e.callee or '').endswith('mem::swap') or (e.callee or '').endswith('ptr::swap'))]
                 oks = len(sw) == 1 and lin(sw[0].args[0]) == lin(el(R_)) and lin(sw[0].args[1]) in (lin(app('add', el(('app', 'wsub', W_, C(1))), SZ)), lin(el(W_))) and any(f[0] == 'ne' and set(f[1:]) == {R_, W_} for f in sw[0].state.facts) \
                     and any(f[0] == 'nottrue' for f in sw[0].state.facts)
                 check('partition_dedup_by', 'a kept element is swapped from s[r] into s[w] (only when r != w)', oks)
                 sp = [e for e in ev if e.kind == 'call' and (e.callee or '').endswith('split_at_mut')]
-                check('partition_dedup_by', 'the slice is split at the write cursor once the read cursor reached len', len(sp) == 1 and sp[0].args == [S, W_] and any(f == ('le', app('len', S), R_) for f in sp[0].state.facts))
+                check('partition_dedup_by', 'the slice is split at the write cursor once the read cursor reached len', len(sp) == 1 and sp[0].args == [S, W_] and (any(f == ('le', app('len', S), R_) for f in sp[0].state.facts) or (range_form and any(f[0] == 'is' and f[2] == 'None' and f[1] == nxr[0].ret for f in sp[0].state.facts))))
         alts = arena.alternatives(I2, r2.ret, set())
         check('partition_dedup_by', 'slices of length <= 1 are returned unchanged', any(t[0] == 'agg' and field_of(t, '0') == S and any(f == ('le', app('len', S), C(1)) for f in fs) for t, fs in alts))
     m = need('dedup_by')
